@@ -1,5 +1,5 @@
 From Coq Require Import Extraction ExtrOcamlBasic NArith ZArith.
-From Storage Require Import Base.Bytes Db.Content Db.Timeline Db.Snapshot Db.Reader Db.RestoreX Db.SnapPath Db.RestoreMeta.
+From Storage Require Import Base.Bytes Db.Content Db.Timeline Db.Snapshot Db.Reader Db.RestoreX Db.SnapPath Db.RestoreMeta Db.SnapView.
 Extraction Language OCaml.
 Definition force_types : nat * N * Z := (O, 0%N, 0%Z).
-Extraction "c17_model.ml" force_types run_obs empty_db step xrun_obs empty_xdb xstep copy prun_obs empty_pdb pstep expand default_path mrun_obs mstep mcalls.
+Extraction "c17_model.ml" force_types run_obs empty_db step xrun_obs empty_xdb xstep copy prun_obs empty_pdb pstep expand default_path mrun_obs mstep mcalls vstep empty_vdb returning.
